@@ -655,3 +655,116 @@ package exec
 //@   property C04
 //@   uses strnum
 //@   ensures r == toNum(VStr(n))
+
+// ---------- string-value of nodes (exec/result.go) ----------
+
+//@ extern node.Namespace.NamespaceValue(n) (r)
+//@   pure
+//@   uses strval
+//@   ensures r == nsValue(n)
+
+//@ extern node.Namespace.Prefix(n) (r)
+//@   pure
+//@   uses strval
+//@   ensures r == nsPrefix(n)
+
+//@ extern node.Attribute.AttributeValue(n) (r)
+//@   pure
+//@   uses strval
+//@   ensures r == attrValue(n)
+
+//@ extern node.CharData.CharDataValue(n) (r)
+//@   pure
+//@   uses strval
+//@   ensures r == textValue(n)
+
+//@ extern node.Comment.CommentValue(n) (r)
+//@   pure
+//@   uses strval
+//@   ensures r == commentValue(n)
+
+//@ extern node.ProcInst.ProcInstValue(n) (r)
+//@   pure
+//@   uses strval
+//@   ensures r == piValue(n)
+
+//@ extern node.ProcInst.Target(n) (r)
+//@   pure
+//@   uses strval
+//@   ensures r == piTarget(n)
+
+//@ extern node.NamedNode.Space(n) (r)
+//@   pure
+//@   uses strval
+//@   ensures r == nodeSpace(n)
+
+//@ extern node.NamedNode.Local(n) (r)
+//@   pure
+//@   uses strval
+//@   ensures r == nodeLocal(n)
+
+//@ extern strings.Builder.WriteString(b, s) (n, err)
+//@   uses strbuilder
+//@   requires b != nil
+//@   modifies b
+//@   ensures sbstr(deref(b)) == old(sbstr(deref(b))) + s && err == nil
+
+//@ extern strings.Builder.String(b) (r)
+//@   pure
+//@   uses strbuilder
+//@   requires b != nil
+//@   ensures r == sbstr(deref(b))
+
+//@ func writeCharData(buf, c) ()
+//@   property C04 C13 C15
+//@   uses strbuilder
+//@   requires buf != nil && c != nil
+//@   modifies buf
+//@   ensures sbstr(deref(buf)) == old(sbstr(deref(buf))) + textValue(c)
+
+//@ func getElementStringValue(buf, c) ()
+//@   property C04 C13 C15
+//@   uses strbuilder
+//@   requires buf != nil && c != nil
+//@   modifies buf
+//@   decreases last(c) - pos(c)
+//@   ensures sbstr(deref(buf)) == old(sbstr(deref(buf))) + elemStr(c)         @descendant-text-in-document-order
+//@   loop 0
+//@     invariant 0 - 1 <= #k && #k < nch(c) || (nch(c) == 0 && #k == 0 - 1)
+//@     invariant sbstr(deref(buf)) == old(sbstr(deref(buf))) + elemStrUpTo(c, #k + 1)
+//@     decreases nch(c) - #k
+
+//@ func getCursorStringValue(buf, c) ()
+//@   property C04 C13 C15
+//@   uses strbuilder
+//@   requires buf != nil && c != nil
+//@   modifies buf
+//@   ensures sbstr(deref(buf)) == old(sbstr(deref(buf))) + strval(c)          @string-value
+
+//@ func GetCursorString(c) (r)
+//@   property C04 C05 C13 C15
+//@   uses strval strbuilder
+//@   requires c != nil
+//@   ensures r == strval(c)                                                   @string-value
+
+//@ func NodeSet.String(n) (r)
+//@   property C04 C13 C15
+//@   uses strval nodeset
+//@   requires nodes(n)
+//@   ensures r == toStr(VSet(n))                                              @first-node-in-document-order
+//@   loop 0
+//@     invariant 0 - 1 <= #k && #k < len(n) - 1 || (len(n) == 1 && #k == 0 - 1)
+//@     invariant first != nil && exists j Int :: 0 <= j && j <= #k + 1 && n[j] == first
+//@     invariant forall j Int :: 0 <= j && j <= #k + 1 ==> pos(first) <= pos(n[j])
+//@     decreases len(n) - #k
+
+//@ func NodeSet.Number(n) (r)
+//@   property C04 C13 C15
+//@   uses strval nodeset strnum
+//@   requires nodes(n)
+//@   ensures r == toNum(VSet(n))
+
+//@ func NodeSet.Bool(n) (r)
+//@   property C04
+//@   uses values
+//@   ensures r == toBool(VSet(n))
